@@ -26,6 +26,15 @@ CLAIMS = {
          "(3) World.componentID is proved to restore the registry exactly (regSame) when a registration is attempted under lock.",
          TRUST + " World state = memory owned by World/tables/graph/pool/registry; the lock mask itself, resources (C20), the filter cache and listener slot are not structural state (listed in evidence). Exempt entry points (resource registration, NewWorld) are listed with reasons. Open/close pairing of queries (each open query releases its bit exactly once) is not yet under contract.",
          "contract-based deductive verification: WP/symbolic execution over go/ssa with SMT-checked path feasibility, obligations discharged by z3/cvc5"),
+ "C20": ("Resources are proved against the slot view: Add panics iff the slot is occupied (nothing written before the panic), otherwise stores exactly the given interface value; Remove panics iff empty, otherwise clears; Get returns the stored value identically (same dynamic type and pointer), Has iff non-nil; every operation's frame is proved (only that one slot changes; locks, pool, tables and the component registry are outside the modifies clause); reset clears all slots (loop invariant); resource IDs come from w.resources.registry, a different object from w.registry, with the registry contracts of C16; generic.Resource[T].Get/Has/Add/Remove are proved against the same view, Get returning nil for an absent resource.",
+         TRUST + " GetResource/AddResource compute the slot by reflection inside the function: their run-time checks are assumed and only the frame and the 'nothing stored => nil' clause are proved. Typed-slot convention (a slot of type T holds nil or *T) is a precondition of Resource[T].Get.",
+         "contract-based deductive verification: WP/symbolic execution over go/ssa, obligations discharged by z3/cvc5"),
+ "C13": ("Every function of the library packages (ecs, ecs/event, filter, listener, generic; all of them, not only those under contract) is checked on its SSA to stay inside a deterministic fragment: no iteration over maps, no select, goroutines or channel operations, no pointer-to-integer conversion, no calls into time, math/rand, os, sync or runtime; the LIFO orders of the bit pool are contract postconditions (Get returns the most recently recycled bit).",
+         "The frame clause is decided syntactically on go/ssa (one obligation per function), not by SMT; determinism of Go on that fragment and of reflect/fmt/encoding/json is trusted; the conclusion 'same operations give same results in every process' is the paper step from 'every function is a deterministic function of arguments and reachable heap'. GC timing cannot be observed because no finalizers or address-dependent control flow exist in the fragment.",
+         "contract-based verification, frame clause 'deterministic' checked on go/ssa for every function; pool order by SMT-discharged postconditions"),
+ "C19": ("Every function of the library packages is checked on its SSA against the frame clause 'assigns no package state': no store, map update, append/copy/delete reaches a package-level variable outside init, and no package-level variable has its address stored, passed, captured or returned; every package-level variable is of an immutable kind (integer, reflect.Type). Hence two worlds share no mutable location.",
+         "The frame clause is decided syntactically on go/ssa (one obligation per function and per package-level variable), not by SMT. The step from 'no shared mutable location' to 'no data race / no cross-talk for every interleaving' is an argument from the Go memory model; thread-safety of package reflect's internal caches is trusted.",
+         "contract-based verification, frame clause 'assigns no package state' checked on go/ssa for every function"),
 }
 
 NA = {
